@@ -44,7 +44,7 @@ manifest = {
     "engines": [
         {"name": "E1", "path": "mc/src/explore.rs", "kind_free_text": "explicit-state BFS over operation histories of real revm objects with a lock-step reference model",
          "serves_properties": [p for p in ids if CLAIMED.get(p, {}).get("engine") == "E1"]},
-        {"name": "E2", "path": "mc/src/enumerate.rs", "kind_free_text": "bounded-exhaustive enumeration of programs/transactions/configurations executed on the real EVM",
+        {"name": "E2", "path": "mc/src/gen.rs", "kind_free_text": "bounded-exhaustive enumeration of programs/transactions/configurations executed on the real EVM",
          "serves_properties": [p for p in ids if CLAIMED.get(p, {}).get("engine") == "E2"]},
         {"name": "E3", "path": "mc/src/lattice.rs", "kind_free_text": "exhaustive argument lattices for pure functions against unbounded-integer definitions",
          "serves_properties": [p for p in ids if CLAIMED.get(p, {}).get("engine") == "E3"]},
